@@ -37,7 +37,8 @@ type diskState struct {
 	canary string
 
 	mu         sync.Mutex
-	stamp      int64            // strictly increasing modification time counter
+	stamp      int64            // base of the modification time counter (seconds)
+	stampNanos int64            // strictly increasing offset in nanoseconds
 	userEdit   map[string]int64 // side:path -> sequence number of the last user edit
 	lastSnap   map[string]*core.Entry
 	scanStart  map[string]int64
@@ -72,12 +73,18 @@ func (h *harness) setupDisk() error {
 			return err
 		}
 	}
+	// The canary mirrors in-root names two directory levels deep, so that a
+	// path crossing a planted link keeps resolving inside it.
 	os.Mkdir(d.canary, 0o755)
-	for _, n := range []string{"a", "b", "c", "d"} {
-		os.WriteFile(filepath.Join(d.canary, n), []byte("canary-"+n), 0o644)
+	for _, x := range []string{"a", "b", "c"} {
+		os.Mkdir(filepath.Join(d.canary, x), 0o755)
+		for _, y := range []string{"a", "b", "c"} {
+			os.Mkdir(filepath.Join(d.canary, x, y), 0o755)
+			os.WriteFile(filepath.Join(d.canary, x, y, "f"), []byte("canary-"+x+y), 0o644)
+		}
+		os.WriteFile(filepath.Join(d.canary, x, "d"), []byte("canary-"+x+"-d"), 0o644)
 	}
-	os.Mkdir(filepath.Join(d.canary, "sub"), 0o755)
-	os.WriteFile(filepath.Join(d.canary, "sub", "a"), []byte("canary-sub-a"), 0o644)
+	os.WriteFile(filepath.Join(d.canary, "d"), []byte("canary-d"), 0o644)
 	d.canaryHash = d.hashTree(d.canary)
 	g := h.plan.C("fs_gates")
 	for i, act := range []string{"scan", "transition", "stage", "supply", "receive", "poll"} {
@@ -203,6 +210,19 @@ func (d *diskState) hook(op string, dirfd int, path string, dirfd2 int, path2 st
 	s.Count("probe.fs_ops."+activity, 1)
 	if d.gated[activity] {
 		s.Gate("fs."+gateSide+"."+activity, op+" "+maskTemp(gateRel))
+	}
+	// A user modification placed at an exact point inside a mutagen activity:
+	// just before the Nth hooked system call of that activity on that side.
+	d.h.mu.Lock()
+	settling := d.h.settling
+	d.h.mu.Unlock()
+	if n := s.Occur(gateSide + "." + activity); settling {
+		// The user is idle while the session settles.
+	} else if f := s.MatchFault("fs_user", gateSide+"."+activity, n); f != nil {
+		if kind, rel, ok := strings.Cut(f.S, ":"); ok {
+			s.Count("fault.fs_user."+kind, 1)
+			d.userOp(simkit.Op{Actor: "user", Kind: kind, N: []int64{f.Arg, 0}, S: []string{gateSide, rel}})
+		}
 	}
 	// Fault injection keyed by (side, activity, operation), Nth occurrence.
 	n := s.Occur(key)
@@ -424,9 +444,15 @@ func (d *diskState) hashTree(dir string) string {
 
 // ------------------------------------------------------------------ the user
 
+// touch stamps a strictly increasing modification time. Increments are below
+// one second most of the time, so that successive edits of one file often fall
+// into the same wall-clock second (only the nanoseconds differ).
 func (d *diskState) touch(abs string) {
-	d.stamp += 3
-	t := time.Unix(d.stamp, 0)
+	d.stampNanos += 300_000_007
+	if d.stampNanos%7 == 0 {
+		d.stampNanos += 2_000_000_000
+	}
+	t := time.Unix(d.stamp, d.stampNanos)
 	os.Chtimes(abs, t, t)
 }
 
